@@ -236,6 +236,15 @@ def check_cv(ctx, e, sz, f, g, info):
             bad.append("vector - vector ignores an entry rebound after construction (%s)" % (k,))
     if abs(cv3.dot(cv2) - float((cur[kf] * cv2[kf].values).sum() + (cur[kg] * cv2[kg].values).sum())) > 1e-9 * max(1.0, abs(want)):
         bad.append("dot ignores an entry rebound after construction")
+    # the two vectors may have been filled in another key order: entries are paired by KEY
+    cv2r = CliqueVector({})
+    for k in (kg, kf):
+        cv2r[k] = cv2[k]
+    sr, dr = cv1 + cv2r, cv1 - cv2r
+    for k in (kf, kg):
+        if tuple(sr[k].domain.attrs) != k or not np.array_equal(sr[k].values, cv1[k].values + cv2[k].values) or not np.array_equal(dr[k].values, cv1[k].values - cv2[k].values):
+            bad.append("cv1 +/- cv2 with the second vector filled in another key order, clique %s" % (k,))
+            break
     # the same clique may be stored with its attributes in another order in the other vector: dot pairs cells by NAME
     cv2t = CliqueVector({k: (cv2[k].transpose(tuple(reversed(k))) if len(k) >= 2 else cv2[k]) for k in (kf, kg)})
     if abs(cv1.dot(cv2t) - want) > 1e-9 * max(1.0, abs(want)):
@@ -288,6 +297,21 @@ def check_store(ctx, e, sz):
             if f is not f0 or g is not g0:
                 ctx.violation("in-place operation %s rebound the object" % op, info, {"kind": "store"})
                 return
+            # projections asked BETWEEN in-place updates always describe the current contents
+            for obj, lay, want_now in ((f, e["fl"], h["f"]), (g, e["gl"], h["g"])):
+                if len(lay) >= 1:
+                    rev = list(reversed(lay))
+                    pr = obj.project(rev)
+                    wantp = np.transpose(np.array(want_now, dtype=float).reshape([sz[a] for a in lay]), [list(lay).index(a) for a in rev]).reshape(-1)
+                    if tuple(pr.domain.attrs) != tuple(rev) or not np.array_equal(np.asarray(pr.values, dtype=float).reshape(-1), wantp):
+                        ctx.violation("after step %d (%s): project(%s) = %s, the current contents give %s" % (
+                            k + 1, op, rev, np.asarray(pr.values).reshape(-1).tolist(), wantp.tolist()), info, {"kind": "store", "op": op})
+                        return
+                    one = obj.project([lay[0]])
+                    want1 = np.array(want_now, dtype=float).reshape([sz[a] for a in lay]).sum(axis=tuple(range(1, len(lay))))
+                    if not np.allclose(np.asarray(one.values, dtype=float).reshape(-1), want1.reshape(-1), rtol=1e-12, atol=0):
+                        ctx.violation("after step %d (%s): project([%s]) does not describe the current contents" % (k + 1, op, lay[0]), info, {"kind": "store", "op": op})
+                        return
             gotf, gotg = f.values.reshape(-1), g.values.reshape(-1)
             if (tuple(f.domain.attrs) != tuple(e["fl"]) or tuple(g.domain.attrs) != tuple(e["gl"]) or
                     not np.array_equal(gotf, np.array(h["f"], dtype=float)) or not np.array_equal(gotg, np.array(h["g"], dtype=float))):
